@@ -205,6 +205,7 @@ fn main() {
     // --- the text front-end's entry points: solve_no_metadata / solve / solve_with_config /
     // solve_with_config_analysis / direct library calls on the same constraints and guesses
     let mut texts = 0usize;
+    let (mut config_runs, mut config_errs) = (0usize, 0usize);
     for _ in 0..(n / 4).max(20) {
         let gp = ezpz_verif_harness::textgen::gen_valid(&mut rng);
         let text = ezpz_verif_harness::textgen::text_of(&gp, &mut rng);
@@ -241,6 +242,37 @@ fn main() {
             bad(format!("solve() and solve_with_config_analysis() differ: {a} vs {c}"), "text-entry-points-differ");
         }
         if describe(&lib) != describe(&nm) { bad("solve_no_metadata differs from the library's solve on the same constraints and guesses".into(), "text-entry-points-differ"); }
+        // non-default configurations (caps too small to converge, tight / loose tolerances): every entry
+        // point must honour the caller's configuration — all succeed with the same numbers or all fail
+        for cfg in [
+            Config::default().with_max_iterations(0),
+            Config::default().with_max_iterations(1),
+            Config::default().with_max_iterations(2),
+            Config::default().with_convergence_tolerance(1e-13).with_max_iterations(3),
+            Config::default().with_convergence_tolerance(1e-2),
+        ] {
+            config_runs += 1;
+            let wc = show(&cs.solve_with_config(cfg));
+            let wa = match cs.solve_with_config_analysis(cfg) { Ok(oa) => fp_outcome(&oa.outcome), Err(f) => format!("ERR {}", ezpz_verif_harness::trace::show_err(&f)) };
+            let lib_c = solve(&cs.constraints, cs.verif_initial_guesses(), cfg);
+            let nm_c = cs.solve_no_metadata(cfg);
+            if wc.starts_with("ERR") { config_errs += 1; }
+            if wc != wa && !(wa.starts_with("ERR") && !wc.starts_with("ERR")) {
+                bad(format!("under a non-default configuration solve_with_config and solve_with_config_analysis differ: {wc} vs {wa}"), "text-entry-points-differ-under-config");
+            }
+            if describe(&lib_c) != describe(&nm_c) {
+                bad(format!("under a non-default configuration solve_no_metadata differs from the library's solve: {} vs {}", describe(&nm_c), describe(&lib_c)), "text-entry-points-differ-under-config");
+            }
+            match (&cs.solve_with_config(cfg), &lib_c) {
+                (Ok(o), Ok(l)) => {
+                    if o.iterations != l.iterations() || o.unsatisfied != l.unsatisfied() || o.priority_solved != l.priority_solved() {
+                        bad("under a non-default configuration the text front-end's outcome disagrees with the library's on iterations / unsatisfied / priority".into(), "text-entry-points-differ-under-config");
+                    }
+                }
+                (Err(_), Err(_)) => {}
+                _ => bad(format!("under a non-default configuration the text front-end's solve_with_config and the library's solve disagree on success: {wc} vs {}", describe(&lib_c)), "text-entry-points-differ-under-config"),
+            }
+        }
         // the labelled outcome carries the library's numbers
         if let (Ok(o), Ok(l)) = (&cs.solve(), &lib) {
             if o.iterations != l.iterations() || o.unsatisfied != l.unsatisfied() || o.priority_solved != l.priority_solved() {
@@ -256,7 +288,7 @@ fn main() {
     }
     println!("DIGEST {digest:016x}");
     println!(
-        "STATS {{\"systems\": {systems}, \"both_ok\": {both_ok}, \"both_err\": {plain_err}, \"analysis_only_err\": {analysis_only_err}, \"repeated_calls\": {repeats}, \"texts\": {texts}, \"fresh_thread_solves\": {history_free}, \"order\": \"{}\", \"digest\": \"{digest:016x}\", \"violations\": {}}}",
+        "STATS {{\"systems\": {systems}, \"both_ok\": {both_ok}, \"both_err\": {plain_err}, \"analysis_only_err\": {analysis_only_err}, \"repeated_calls\": {repeats}, \"texts\": {texts}, \"text_runs_under_other_configs\": {config_runs}, \"of_which_fail\": {config_errs}, \"fresh_thread_solves\": {history_free}, \"order\": \"{}\", \"digest\": \"{digest:016x}\", \"violations\": {}}}",
         if reverse { "reversed" } else { "listed" },
         out.len()
     );
